@@ -52,12 +52,23 @@ func vC15Diff(before, after map[string][]byte) (deleted, changed []string, added
 	return
 }
 
+// the key prefixes of the graph database; a key's class is the longest one it starts with (the bytes after the
+// prefix are binary and may look like letters)
+var vC15Prefixes = []string{"ASSETINFO", "ASSETTOTAL", "CONSENSUSSNAPSHOT", "CUSTODIANUPDATE", "DEPOSIT", "FINALIZATION", "GHOST", "LINK", "MINTUNIVERSAL",
+	"NODEOPERATION", "NODESTATEQUEUE", "ROUND", "SNAPSHOT", "SNAPTOPO", "SPACECHECKPOINT", "SPACEQUEUE", "TOPOLOGY", "TRANSACTION", "UNIQUE", "UTXO", "WITHDRAWAL",
+	"WORKCHECKPOINT", "WORKPROPOSE", "WORKSNAPSHOT", "WORKVOTE"}
+
 func vC15Prefix(k string) string {
-	i := 0
-	for i < len(k) && k[i] >= 'A' && k[i] <= 'Z' {
-		i++
+	best := ""
+	for _, p := range vC15Prefixes {
+		if strings.HasPrefix(k, p) && len(p) > len(best) {
+			best = p
+		}
 	}
-	return k[:i]
+	if best == "" {
+		return "UNKNOWN"
+	}
+	return best
 }
 
 // TestVerif_C15: finalizing a snapshot is atomic and idempotent.
@@ -66,7 +77,7 @@ func TestVerif_C15(t *testing.T) {
 	r.SetRule("storage-level ledger simulator with every transaction class. Each step finalizes one batch (1..24 quick, up to 255 thorough) with a full key/value dump of the " +
 		"graph database before and after: (success) no key deleted, no existing key changed except asset totals, and through the public API every transaction has its finalization " +
 		"record, every materialized output exists, asset totals moved by exactly the batch's deposits+mints-withdrawals, the snapshot has its topology position, round and work " +
-		"record; (failure) batches with one member that cannot finalize at a random position — missing body, output key owned by another transaction, conflicting asset data, a " +
+		"record and exactly one new per-node uniqueness record per transaction; (failure) batches with one member that cannot finalize at a random position — missing body, output key owned by another transaction, conflicting asset data, a " +
 		"second pledge while one is pending — must leave the dump digest unchanged and the store usable; (overlap) snapshots of another chain that contain already finalized " +
 		"transactions must change no existing key. non-trivial = distinct snapshot writes by (mode, outcome, batch size)")
 	rng := r.Rand()
@@ -183,9 +194,22 @@ func TestVerif_C15(t *testing.T) {
 						r.Violation("C15|success|output-missing", "a materialized output of a finalized transaction is missing or differs", map[string]any{"kind": b.Kind, "index": i})
 					}
 				}
+				if _, ok := after["UNIQUE"+string(h[:])+string(snap.NodeId[:])]; !ok {
+					r.Violation("C15|success|uniqueness-record-missing", "a transaction of a written snapshot has no per-node uniqueness record for the snapshot's chain",
+						map[string]any{"kind": b.Kind, "batch": len(batch)})
+				}
 				d.applied(b)
 				finalizedPool = append(finalizedPool, b.Tx)
 				r.Count("finalized_"+b.Kind, 1)
+			}
+			nuniq := 0
+			for k := range after {
+				if _, old := before[k]; !old && strings.HasPrefix(k, "UNIQUE") {
+					nuniq++
+				}
+			}
+			if nuniq != len(batch) {
+				r.Violation("C15|success|uniqueness-record-count", fmt.Sprintf("a snapshot of %d transactions added %d per-node uniqueness records", len(batch), nuniq), map[string]any{"batch": len(batch)})
 			}
 			for a, delta := range expDelta {
 				_, bal, _ := sim.Store.ReadAssetWithBalance(a)
@@ -443,6 +467,9 @@ func TestVerif_C15(t *testing.T) {
 			for _, h := range again {
 				if _, fin, _ := sim.Store.ReadTransaction(h); fin != firsts[h] {
 					r.Violation("C15|overlap|first-finalization-replaced", "a transaction's finalization record no longer names its first snapshot", nil)
+				}
+				if _, ok := after["UNIQUE"+string(h[:])+string(chain[:])]; !ok {
+					r.Violation("C15|overlap|uniqueness-record-missing", "a written snapshot of another chain left no per-node uniqueness record for one of its transactions", map[string]any{"batch": len(again)})
 				}
 			}
 		}
